@@ -71,6 +71,18 @@ fn main() {
             debug_sql(&p);
             return;
         }
+        "DEBUGC03" => {
+            // one query under the C03 monitor: --sql=... [--case=N]
+            let mut r = p.rng(p.num("case", 0));
+            let opts = mon::c03::world_options(&mut r);
+            let w = gen::catalog::gen_dp_world(&mut r, &opts);
+            let params = gen::dpsql::gen_dp_parameters(&mut r);
+            let sql = p.extra.get("sql").cloned().unwrap_or_default();
+            let mut rep = util::Report::for_params("C03", &p);
+            mon::c03::check(&sql, &w, &params, false, &["debug"], &mut rep);
+            println!("{}", serde_json::to_string_pretty(&rep.to_json()).unwrap());
+            return;
+        }
         "DEBUGC12" => {
             use qrlew::data_type::injection::{InjectInto, Injection};
             use qrlew::data_type::{DataType, Variant as _};
